@@ -5,7 +5,7 @@
    Loaded values are the model records themselves, so "answers every query as x does" is equality. *)
 From Coq Require Import String NArith List Bool.
 Require Import SDS.Model.Mach SDS.Model.Bits SDS.Model.Raw SDS.Model.IntVec SDS.Model.BitVec SDS.Model.Ser SDS.Model.SerBV.
-Require Import SDS.gen.Consts SDS.Spec.Stream SDS.Proofs.SerProof SDS.Proofs.SerTypes SDS.Proofs.SerSupports SDS.Proofs.SerMain.
+Require Import SDS.gen.Consts SDS.gen.Layout SDS.Spec.Stream SDS.Proofs.SerProof SDS.Proofs.SerTypes SDS.Proofs.SerSupports SDS.Proofs.SerMain.
 Import ListNotations.
 Open Scope list_scope.
 Open Scope N_scope.
@@ -190,3 +190,61 @@ Proof.
   constructor; [split; [exact (bv_codec_ok Debug)|exact ex_bv_ok]|].
   constructor.
 Qed.
+
+(* ================================================================ the run-length vector *)
+
+Require Import SDS.Model.RL SDS.Spec.Runs SDS.Proofs.SerRL.
+
+(* [rl_codec m] (Model/Ser.v) is RLVector's impl of Serialize: len, ones, samples, data are written; load reads
+   them back, checks samples.len() / 2 = div_round_up(data.len(), 64), and REBUILDS rank_index, select_index and
+   select_zero_index with SampleIndex::new over the sample columns. Its well-formedness predicate
+   [c_wf (rl_codec m) v] is: the four fields are well-formed and the loader applied to them returns v itself.
+
+   Every vector built through RLBuilder + RLVector::from (any sorted run list, any length up to 2^64-1, both modes)
+   meets it, hence: load returns the SAME model record (all seven fields, so it answers every query as the
+   original does) and leaves exactly what followed the serialization, and size_in_bytes = 8 * size_in_elements
+   bytes were written. [lenN R < 2^55]: the bit count of `data` must stay below 2^64 (address-space bound). *)
+Theorem C06_roundtrip_rl : forall (m : mode) (R : list (N * N)) (L : N),
+  runs_sorted 0 R -> runs_end R <= L -> L <= 2 ^ 64 - 1 -> lenN R < 2 ^ 55 ->
+  exists v,
+    rl_build m (map (fun r => BTrySet (fst r) (snd r)) R ++ [BSetLen L]) = Ok (v, map (fun _ => true) R ++ [true]) /\
+    c_wf (rl_codec m) v /\
+    (forall rest, c_dec (rl_codec m) (c_enc (rl_codec m) v ++ rest) = IoOk (v, rest)) /\
+    lenN (c_enc (rl_codec m) v) = 8 * c_size (rl_codec m) v.
+Proof.
+  intros m R L Hs He HL Hn. destruct (rl_built_wf m R L Hs He HL Hn) as (v & Hb & Hwf).
+  exists v. split; [exact Hb|]. split; [exact Hwf|]. exact (ok_roundtrip _ v (rl_codec_ok m) Hwf).
+Qed.
+Print Assumptions C06_roundtrip_rl.
+
+(* ... and for any value of the type that the loader maps to itself *)
+Theorem C06_roundtrip_rl_wf : forall m v, c_wf (rl_codec m) v -> roundtrip (rl_codec m) v.
+Proof. intros m v H. exact (ok_roundtrip _ v (rl_codec_ok m) H). Qed.
+Print Assumptions C06_roundtrip_rl_wf.
+
+(* size_in_elements = 2 (len, ones) + the two IntVectors (4 + their words each); the bytes written are the
+   little-endian image of the element list [rl_serialize] of Model/RL.v (what C03's correspondence compares) *)
+Theorem C06_size_rl : forall m v,
+  c_size (rl_codec m) v = 10 + lenN (rdata (idata (rl_samples v))) + lenN (rdata (idata (rl_data v))) /\
+  c_enc (rl_codec m) v = flat_map le64 (rl_serialize v).
+Proof. intros m v. split; [apply rl_size|apply rl_enc_elems]. Qed.
+Print Assumptions C06_size_rl.
+
+(* the tie to the source for RLVector: field order of serialize / load / size_in_elements and the sanity check *)
+Theorem C06_layout_rl :
+  mklayout layout_RLVector_serialize_header layout_RLVector_serialize_body layout_RLVector_load
+           layout_RLVector_load_checks layout_RLVector_size_in_elements = expected_RLVector /\
+  fields_consistent expected_RLVector ["len"; "ones"; "samples"; "data"]%string.
+Proof. exact (conj layout_RLVector_ok fields_RLVector). Qed.
+Print Assumptions C06_layout_rl.
+
+(* non-vacuity: a vector of four blocks; loaded from its own bytes followed by other data *)
+Example ex_rl_roundtrip :
+  match rl_build Debug (map (fun k => BTrySet (100 * k) (k + 1)) [0; 1; 2; 3; 4; 5; 6; 7; 8; 9; 10; 11; 12; 13; 14; 15; 16; 17; 18; 19; 20; 21; 22; 23; 24; 25; 26; 27; 28; 29; 30; 31; 32; 33; 34; 35; 36; 37; 38; 39] ++ [BSetLen (2 ^ 64 - 1)]) with
+  | Ok (v, _) =>
+      rl_blocks v = 4 /\ lenN (c_enc (rl_codec Debug) v) = 8 * 25 /\
+      c_dec (rl_codec Debug) (c_enc (rl_codec Debug) v ++ [7; 7]) = IoOk (v, [7; 7]) /\
+      c_dec (rl_codec Debug) (firstn 199 (c_enc (rl_codec Debug) v)) = IoErr UnexpectedEof
+  | _ => False
+  end.
+Proof. vm_compute. repeat split; reflexivity. Qed.
